@@ -617,6 +617,8 @@ def expr_pool(quick):
         ("bool-and", "Bool", ("Bin", ("Paren", ("Bin", V("a"), ">", I(2))), "&&", ("Paren", ("Bin", V("s"), "==", ("Str", "hi"))))),
         ("tuple", "Tuple", ("Tuple", [V("a"), V("s")])),
         ("some", "Option", call("Some", ("Bin", V("a"), "+", I(1)))),
+        # `s` is free only in the key, `a` only in the value
+        ("dict-key-var", "Dict", ("Dict", [(V("s"), V("a"))])),
     ]
     if not quick:
         pool += [
